@@ -26,6 +26,7 @@ inductive Prim where
   | pathOut (pre : Bytes) (term : Bytes) -- writes pre ++ path ++ term  (-print, -print0, -printf 'pre%pterm')
   | lit (b : Bytes)                      -- -printf with literal text only
   | prune | quit
+  | delete
   -- `-exec cmd args ;` / `-execdir …` (dir = true); `cmdOk = false`: the command cannot be started
   | exec (dir : Bool) (cmdOk : Bool) (cmd : Bytes) (tmpl : List Bytes)
   -- `-exec cmd args {} +` / `-execdir …`; `id` distinguishes the primaries of one expression
@@ -37,6 +38,7 @@ def Prim.isAction : Prim → Bool
   | .lit _ => true
   | .exec _ _ _ _ => true
   | .execMulti _ _ _ _ _ => true
+  | .delete => true
   | _ => false
 
 structure Config where
@@ -105,6 +107,8 @@ structure GS where
   curDir : Option Bytes := none           -- `current_dir` of `process_dir`
   budget : Nat := 2000000                 -- `ARG_MAX` minus the size of the environment
   panicked : Bool := false
+  deleted : List Bytes := []              -- paths removed so far by -delete, in order
+  mdiags : Nat := 0                       -- diagnostics of actions (failed removals …)
   deriving Repr
 
 /-- per-entry evaluation state (`MatcherIO` plus what is shared) -/
@@ -194,6 +198,18 @@ def sem (start : Bytes) (v : Visit Attr) (p : Prim) (s : ES) : Bool × ES :=
   | .lit b => (true, { s with gs := { s.gs with out := s.gs.out ++ b } })
   | .prune => (true, if fileType v == 'd' then { s with prune := true } else s)
   | .quit => (true, { s with quit := true })
+  | .delete =>
+    -- `DeleteMatcher`: "." is skipped; a real directory goes with `remove_dir` (fails unless it is
+    -- empty now), anything else — links included — with `remove_file`
+    if path == [46] then (true, s)
+    else
+      let removable : Bool :=
+        !s.gs.deleted.contains path &&
+        (match v.ent.node with
+         | .dir _ false _ _ kids => kids.all fun k => s.gs.deleted.contains (pushName path k.name)
+         | _ => true)
+      if removable then (true, { s with gs := { s.gs with deleted := s.gs.deleted ++ [path] } })
+      else (false, { s with exit := 1, gs := { s.gs with mdiags := s.gs.mdiags + 1 } })
   | .exec dir cmdOk cmd tmpl =>
     let r := s.gs.spawn cmdOk (cmd :: tmpl.map (substArg (execPath dir path))) (execCwd dir path)
     (r.1 == some 0, { s with gs := r.2 })
@@ -324,15 +340,18 @@ def doFind (c : Config) (m : M Prim) : List (Bytes × Option (Node Attr)) → GS
 inductive Arg where
   | tok (t : Tok Prim)        -- an ordinary token
   | depth | sorted | follow   -- options: always-true primaries with an effect on the configuration
+  | delete                    -- the action; it also switches to post-order while the tree is built
   | minDepth (n : Nat) | maxDepth (n : Nat)
   deriving Repr
 
 def Arg.tok' : Arg → Tok Prim
   | .tok t => t
+  | .delete => .prim .delete
   | _ => .prim .opt
 
 def applyArg (c : Config) : Arg → Config
   | .depth => { c with depthFirst := true }
+  | .delete => { c with depthFirst := true }
   | .sorted => { c with sorted := true }
   | .follow => { c with follow := .always }
   | .minDepth n => { c with minDepth := n }
